@@ -25,7 +25,8 @@ rule = ("scripts = 'g begin', ops, 'g end' (both empty the process-global tree),
         "child is assigned on that level; all old and new paths queried before and after); mpt::path::add/next/del; random "
         "histories over a 6-name pool with depth <=3, clear, and names/values across 255 bytes; stream 8: remove with an "
         "empty and with a NULL path, assign and query with an empty path, on the global object and through views on a valued "
-        "inner element, a leaf, a partially existing and a missing base, alone, in pairs and mixed with set/del; stream 7: every path of <=4 (5) "
+        "inner element, a leaf, a partially existing and a missing base, alone, in pairs and mixed with set/del; views made "
+        "from a partly consumed path (after 1..2 mpt_path_next calls, after mpt_path_last); stream 7: every path of <=4 (5) "
         "elements over {a,bb,ccc,empty} built with addchar/valid/add in both modes, advanced by 0..n-1 mpt_path_next calls "
         "on the same object (offset > 0), then del + add of another element + walk; string-backed paths (mpt_path_set of 1..4 "
         "elements with changing names) advanced by 0..n mpt_path_next calls and then extended by 1..3 elements through "
@@ -360,6 +361,15 @@ def _stream8(tier, r):
                 for b in ops[2::3]:
                     out.append(("empty:%d" % k, head + pre + [a, b, "g set 1 %s 2e %s" % (hx("z"), hx("5"))] + probes + ["g end"]))
                     k += 1
+    # views made from a partly consumed path (offset > 0): after mpt_path_next, and after mpt_path_last
+    for j, (text, how) in enumerate([("x.a.b", "1"), ("x.a.b", "2"), ("x.a.b", "last"), ("xx.yy.a", "2"), ("q.a.b.c", "1"),
+                                      ("q.a.b.c", "last"), ("a.b", "1"), ("long%s.a" % ("y" * 300), "1"), ("a.b.c", "0")]):
+        for pre in preludes[:2]:
+            lines = ["g begin"] + pre + ["g view %s 2e %s" % (hx(text), how), "g set 0 %s 2e %s" % (hx("z"), hx("7")),
+                                         "g get 0 %s 2e" % hx("z"), "g get 0 %s 2e" % hx("c"), "g getp 0",
+                                         "g set 0 %s 2e %s" % (hx("c.k"), hx("8")), "g del 0 %s 2e" % hx("z")]
+            out.append(("empty:adv:%d" % k, lines + probes + ["g get - %s 2e" % hx(t) for t in ("x.a.z", "x.a", "b.z", "b.c.k", "a.z", "a.c.k", "c.z")] + ["g end"]))
+            k += 1
     for i in range(60 if tier == "quick" else 600):
         lines = list(head)
         for _ in range(r.choice([3, 6, 10])):
@@ -507,6 +517,14 @@ class _XX:
         for l1 in (254, 255, 256, 257, 300):
             lines.append("x padd 2e %s,%s" % (hx("x" * l1), hx("ab")))
         out.append(("xpath:build", lines + ["x end"]))
+        # 3a. a copy of a path shares the buffer: deleting from the original, then extending the copy
+        lines = ["x begin"]
+        for n in range(1, 4):
+            for t in itertools.product(["a", "bc", "def"], repeat=n):
+                for t2 in (["zz"], ["y", "xw"], [""]):
+                    lines.append("x pshare 2e %s %s" % (",".join(hx(e) for e in t), ",".join(hx(e) for e in t2)))
+        lines.append("x pshare 2e %s,%s %s" % (hx("x" * 300), hx("ab"), hx("q" * 256)))
+        out.append(("xpath:share", lines + ["x end"]))
         # 3b. an element that does not fit an identifier: refused, and no prefix element may have appeared
         j = 0
         for pre in ([], ["x set %s 2e %s" % (hx("a.b"), hx("1"))], ["x set %s 2e %s" % (hx("c"), hx("1"))]):
